@@ -7,7 +7,9 @@
 use anchor_lang::error::Error as AErr;
 use anchor_lang::prelude::Pubkey;
 use bytemuck::Zeroable;
-use gmsol_store::states::{Oracle, PriceProviderKind, PriceValidator, Store, TokenConfig};
+use anchor_lang::prelude::{AccountInfo, AccountLoader};
+use anchor_lang::Discriminator;
+use gmsol_store::states::{Oracle, PriceFeed, PriceFeedPrice, PriceProviderKind, PriceValidator, Store, TokenConfig, TokenMapAccessMut, TokenMapHeader, TokenMapLoader};
 use gmsol_store::verif::{c24, c29};
 use gmsol_utils::price::Decimal;
 use gmsol_utils::token_config::FeedConfig;
@@ -33,6 +35,9 @@ fn err(e: &AErr) -> String {
         "InvalidOracleTimestampsRange" => "err InvalidRange".into(),
         "NotFound" => "err NotFound".into(),
         "PricesAreAlreadySet" => "err PricesSet".into(),
+        "TokenConfigDisabled" => "err Disabled".into(),
+        "RequireEqViolated" => "err Provider".into(),
+        "InvalidPriceFeedAccount" => "err Feed".into(),
         o => format!("err Other({o})"),
     }
 }
@@ -99,6 +104,125 @@ fn show_oracle(o: &Oracle, tokens: &[u64]) -> String {
     format!("{} {slot} {} {} | {}", o.is_cleared() as u8, o.min_oracle_ts(), o.max_oracle_ts(), ps.join(" "))
 }
 
+// ------------------------------------------------------------------------------------------------
+// native accounts for `nbatch` (real Store / TokenMap / PriceFeed accounts, real with_prices_opts)
+#[repr(C)]
+struct KeyBox { pad: u64, key: Pubkey }
+struct Acc { key: KeyBox, lamports: u64, buf: Vec<u128>, len: usize, owner: Pubkey, writable: bool }
+impl Acc {
+    fn new(key: Pubkey, data: &[u8], writable: bool) -> Self {
+        let mut buf = vec![0u128; (data.len() + 8) / 16 + 2];
+        bytemuck::cast_slice_mut::<u128, u8>(&mut buf)[8..8 + data.len()].copy_from_slice(data);
+        Acc { key: KeyBox { pad: 0, key }, lamports: 1_000_000, buf, len: data.len(), owner: gmsol_store::ID, writable }
+    }
+    fn zc<T: bytemuck::Pod + Discriminator>(key: Pubkey, t: &T, extra: usize, writable: bool) -> Self {
+        let mut d = T::DISCRIMINATOR.to_vec();
+        d.extend_from_slice(bytemuck::bytes_of(t));
+        d.resize(d.len() + extra, 0);
+        Acc::new(key, &d, writable)
+    }
+}
+
+struct NFeed { token: u64, allow_adjust: bool, found: bool, adjustment: u32, ratio: u32, ots: i64, slot: u64, minv: u32, maxv: u32, mult: u8, refv: u32, enabled: bool, prov_ok: bool, feed_ok: bool }
+
+fn parse_nfeed(t: &[&str], now: i64) -> Option<NFeed> {
+    if t.len() != 14 { return None; }
+    let b = |s: &str| match s { "1" => Some(true), "0" => Some(false), _ => None };
+    let f = NFeed { token: t[0].parse().ok()?, allow_adjust: b(t[1])?, found: b(t[2])?, adjustment: t[3].parse().ok()?, ratio: t[4].parse().ok()?,
+        ots: t[5].parse().ok()?, slot: t[6].parse().ok()?, minv: t[7].parse().ok()?, maxv: t[8].parse().ok()?, mult: t[9].parse().ok()?, refv: t[10].parse().ok()?,
+        enabled: b(t[11])?, prov_ok: b(t[12])?, feed_ok: b(t[13])? };
+    let d = now as i128 - f.ots as i128;
+    if f.mult > 20 || f.mult % 2 != 0 || f.minv > f.refv || f.refv > f.maxv || f.ots < 0 || d.abs() > 4_000_000_000 { return None; }
+    Some(f)
+}
+
+/// equivalent hook-level `batch` feed (used by the property oracle)
+fn nfeed_as_feed(f: &NFeed) -> String {
+    format!("{} {} {} {} {} {} {} {} {} {} {} 1 {} {}", f.token, f.allow_adjust as u8, f.found as u8, f.adjustment, f.ratio, f.ots, f.slot, f.minv, f.mult, f.maxv, f.mult, f.refv, f.mult)
+}
+
+const CDS: PriceProviderKind = PriceProviderKind::ChainlinkDataStreams;
+
+fn run_nbatch(t: &[&str]) -> Option<String> {
+    let now: i64 = t[2].parse().ok()?;
+    let (max_age, max_range, max_future): (u64, u64, u64) = (t[3].parse().ok()?, t[4].parse().ok()?, t[5].parse().ok()?);
+    let f_ok = match t[6] { "1" => true, "0" => false, _ => return None };
+    let n: usize = t[7].parse().ok()?;
+    if t.len() != 8 + 14 * n { return None; }
+    let feeds: Vec<NFeed> = (0..n).map(|i| parse_nfeed(&t[8 + 14 * i..8 + 14 * (i + 1)], now)).collect::<Option<Vec<_>>>()?;
+    let mut ids: Vec<u64> = feeds.iter().map(|f| f.token).collect(); ids.sort(); ids.dedup();
+    if ids.len() != n { return None; }
+    let (store_k, map_k) = (h_store::pk(9001), h_store::pk(9002));
+    // Store with the oracle amounts
+    let mut store: Box<Store> = boxed();
+    *store.get_amount_mut("oracle_max_age").unwrap() = max_age;
+    *store.get_amount_mut("oracle_max_timestamp_range").unwrap() = max_range;
+    *store.get_amount_mut("oracle_max_future_timestamp_excess").unwrap() = max_future;
+    let mut header = TokenMapHeader::zeroed();
+    header.store = store_k;
+    let mut accs = vec![Acc::zc(store_k, &*store, 0, false), Acc::zc(map_k, &header, n * std::mem::size_of::<TokenConfig>(), true)];
+    // custom price feeds, published through the real `PriceFeed::update`
+    let mut configs = Vec::new();
+    for (i, f) in feeds.iter().enumerate() {
+        let td = (20 - f.mult) / 2; // token_decimals = precision = feed decimals ⇒ Decimal { value = raw price, multiplier = mult }
+        let feed_id = h_store::pk(7000 + i as u64);
+        let mut tc = TokenConfig::zeroed();
+        tc.set_enabled(f.enabled);
+        tc.set_expected_provider(CDS);
+        tc.set_flag(gmsol_utils::token_config::TokenConfigFlag::AllowPriceAdjustment, f.allow_adjust);
+        tc.token_decimals = td; tc.precision = td; tc.heartbeat_duration = u32::MAX;
+        if f.found {
+            let fc = FeedConfig::new(feed_id).with_timestamp_adjustment(f.adjustment)
+                .with_max_deviation_factor(if f.ratio == 0 { None } else { Some(f.ratio as u128 * RATIO_MULT) }).expect("ratio fits");
+            tc.set_feed_config(&CDS, fc).expect("feed index");
+        }
+        configs.push(tc);
+        let mut pf: Box<PriceFeed> = boxed();
+        let provider = if f.prov_ok { CDS } else { PriceProviderKind::Pyth };
+        let stored_id = if f.feed_ok { feed_id } else { h_store::pk(6000 + i as u64) };
+        c24::price_feed_init(&mut pf, provider, &store_k, &h_store::pk(9003), &token_key(f.token), &stored_id).ok()?;
+        h_store::set_now(now); h_store::set_slot(f.slot);
+        let mut p = PriceFeedPrice::new(td, f.ots, f.refv as u128, f.minv as u128, f.maxv as u128, 0);
+        p.set_flag(gmsol_utils::price::PriceFlag::Open, true);
+        match c24::price_feed_update(&mut pf, &p, u64::MAX, false) { Ok(true) => {}, _ => return Some("err Other(feed update rejected)".into()) }
+        accs.push(Acc::zc(h_store::pk(8000 + i as u64), &*pf, 0, false));
+    }
+    let infos: Vec<AccountInfo> = accs.iter_mut().map(|a| {
+        let d = &mut bytemuck::cast_slice_mut::<u128, u8>(&mut a.buf)[8..8 + a.len];
+        AccountInfo::new(&a.key.key, false, a.writable, &mut a.lamports, d, &a.owner, false, 0)
+    }).collect();
+    fn go<'a>(infos: &[AccountInfo<'a>], feeds: &[NFeed], configs: &[TokenConfig], now: i64, f_ok: bool) -> Option<String> {
+        let infos: &'a [AccountInfo<'a>] = unsafe { std::mem::transmute(infos) };
+        let store_l = AccountLoader::<Store>::try_from(&infos[0]).ok()?;
+        let map_l = AccountLoader::<TokenMapHeader>::try_from(&infos[1]).ok()?;
+        {
+            let mut m = map_l.load_token_map_mut().ok()?;
+            for (f, tc) in feeds.iter().zip(configs) { m.push_with(&token_key(f.token), |c| { *c = *tc; Ok(()) }, true).ok()?; }
+        }
+        h_store::set_now(now);
+        let tokens: Vec<Pubkey> = feeds.iter().map(|f| token_key(f.token)).collect();
+        let ids: Vec<u64> = feeds.iter().map(|f| f.token).collect();
+        let mut oracle: Box<Oracle> = boxed();
+        c24::oracle_init(&mut oracle, *infos[0].key, h_store::pk(9004));
+        let mut seen = None;
+        let r = c24::with_prices_opts(&mut oracle, &store_l, &map_l, &tokens, &infos[2..], false, f_ok, &mut seen);
+        let after = show_oracle(&oracle, &ids);
+        if c24::primary_len(&oracle) != 0 { return Some("err Other(prices left after clear)".into()); }
+        Some(match (seen, r) {
+            (Some(s), r) => {
+                if r.is_ok() != f_ok { return Some("err Other(result of the wrapped operation not propagated)".into()); }
+                let mut ps: Vec<(u64, u128, u128)> = ids.iter().zip(&s.prices).filter_map(|(t, p)| p.map(|(a, b)| (*t, a, b))).collect();
+                ps.sort();
+                let ps: Vec<String> = ps.iter().map(|(t, a, b)| format!("{t}:{a}:{b}")).collect();
+                format!("ok {} {} {} {} | {} || {} {after}", s.cleared as u8, s.min_slot.unwrap_or(u64::MAX), s.min_ts, s.max_ts, ps.join(" "), if f_ok { "f-ok" } else { "f-err" })
+            }
+            (None, Err(e)) => format!("{} || {after}", err(&e)),
+            (None, Ok(_)) => "err Other(operation skipped but reported ok)".into(),
+        })
+    }
+    go(&infos, &feeds, &configs, now, f_ok)
+}
+
 fn run(t: &[&str]) -> Option<String> {
     if t.len() < 2 || t[0] != "orc" { return None; }
     Some(match t[1] {
@@ -155,6 +279,7 @@ fn run(t: &[&str]) -> Option<String> {
                 }
             }
         }
+        "nbatch" if t.len() >= 8 => return run_nbatch(t),
         _ => return None,
     })
 }
@@ -191,6 +316,23 @@ fn deviation(min: &BigUint, max: &BigUint, mult: u8, ratio: u32, r: Option<&Deci
 fn oracle(req: &str, resp: &str) -> Vec<Verdict> {
     let t: Vec<&str> = req.split(' ').collect();
     let mut out = Vec::new();
+    if t[1] == "nbatch" {
+        // same property as the hook-level batch, plus: a disabled token, a feed of another provider or
+        // with another feed id must never yield prices
+        let now: i64 = t[2].parse().unwrap();
+        let n: usize = t[7].parse().unwrap();
+        let feeds: Vec<NFeed> = (0..n).map(|i| parse_nfeed(&t[8 + 14 * i..8 + 14 * (i + 1)], now).unwrap()).collect();
+        if resp.starts_with("ok") {
+            for (i, f) in feeds.iter().enumerate() {
+                if !f.enabled { out.push(Verdict::Fail(format!("feed {i}: price accepted for a disabled token"))); }
+                if !f.prov_ok { out.push(Verdict::Fail(format!("feed {i}: price accepted from an unexpected provider"))); }
+                if !f.feed_ok { out.push(Verdict::Fail(format!("feed {i}: price accepted from a feed with another id"))); }
+            }
+        }
+        let eq = format!("orc batch {} {} {} {} {} {} {}", t[2], t[3], t[4], t[5], t[6], t[7], feeds.iter().map(nfeed_as_feed).collect::<Vec<_>>().join(" "));
+        out.extend(oracle(eq.trim_end(), resp));
+        return out;
+    }
     if resp == "panic" || resp.starts_with("err Other") { out.push(Verdict::Fail(format!("unexpected {resp}"))); return out; }
     match t[1] {
         "fromprice" => {
@@ -271,6 +413,25 @@ fn gen_req(r: &mut Rng) -> String {
     let ratio = |r: &mut Rng| -> u32 { match r.below(8) { 0 => 0, 1 => 1, 2 => u32::MAX, 3 => r.range(2, 1000) as u32, 4 => 10_000, _ => *r.pick(&[100_000u32, 500_000, 1_000_000, 5_000_000, 20_000_000]) } };
     let ts = |r: &mut Rng, base: i64| -> i64 { match r.below(10) { 0 => base - max_age as i64 - r.range(0, 3) as i64, 1 => now + max_future as i64 + r.range(0, 2) as i64, 2 => now, 3 => r.inum(64) as i64, _ => (base + r.range(0, max_range.min(max_age / 2)) as i64).min(now + max_future as i64) } };
     let adj = |r: &mut Rng| -> u32 { match r.below(12) { 0 => 0, 1 => 2, 2 => 60, 3 => r.num(32) as u32, _ => 1 } };
+    if r.chance(2, 5) {
+        // native batch: real accounts; one multiplier, min <= ref <= max
+        let n = r.below(4);
+        let base = now - r.range(0, max_age / 2) as i64 + 1;
+        let mut s = format!("orc nbatch {now} {max_age} {max_range} {max_future} {} {n}", r.below(2));
+        for i in 0..n {
+            let q = ratio(r);
+            let m = 2 * r.below(7) as u8;
+            let refv: u32 = match r.below(8) { 0 => r.range(1, 60) as u32, 1 => u32::MAX - r.below(1000) as u32, _ => r.range(1000, 50_000_000) as u32 };
+            let dev = ((refv as u128).saturating_mul(q as u128 * RATIO_MULT) / UNIT).min(1_000_000_000) as u64;
+            let d = |r: &mut Rng| -> u64 { match r.below(6) { 0 => 0, 1 => dev, 2 => dev + 1, 3 => r.range(0, 3 * dev + 3), _ => r.range(0, dev / 2 + 1) } };
+            let minv = if r.chance(1, 25) { 0 } else { (refv as u64).saturating_sub(d(r)) as u32 };
+            let maxv = (refv as u64 + d(r)).min(u32::MAX as u64) as u32;
+            let o = ts(r, base).clamp(0, now + 4_000_000_000).max(now - 4_000_000_000).max(0);
+            s += &format!(" {} {} {} {} {q} {o} {} {minv} {maxv} {m} {refv} {} {} {}", i + 1, r.below(2), (!r.chance(1, 30)) as u8, adj(r), r.num(64) as u64,
+                (!r.chance(1, 25)) as u8, (!r.chance(1, 25)) as u8, (!r.chance(1, 25)) as u8);
+        }
+        return s;
+    }
     match r.below(10) {
         0 => { let p = gen_price(r, 0); let f: Vec<&str> = p.split(' ').collect(); format!("orc fromprice {} {} {} {}", f[0], f[1], f[2], f[3]) }
         1..=3 => { let q = ratio(r); let base = now - r.range(0, max_age / 2) as i64 + 1; format!("orc validate {now} {max_age} {max_range} {max_future} {} {} {q} {} {} {}", (!r.chance(1, 20)) as u8, adj(r), ts(r, base), r.num(64) as u64, gen_price(r, q)) }
